@@ -6,6 +6,10 @@
 // with a global sequence number and the virtual time in ms.  The Lean driver (McpModel/Order/Driver)
 // checks that the log is a run of the proved model and evaluates the property monitor on it.
 //
+// Wave 5: raw peer over a pair of pipes (rp: newline-delimited JSON, JSON-RPC batches as one line, responses read back —
+// batched by the server when the calls came in one batch); every second raw body mixes calls and notifications; the
+// resume scenario runs in half of ALL she/shje cases, with calls among the messages sent while the stream is detached
+// and, in a third of the cases, a second cut and resume.
 // Wave 4: handler durations up to 90 s; sessionless servers sn/snj (GetSessionID returns ""), also for the raw peer
 // (rs = Stateless, rn = GetSessionID ""); transport run (Server.Run over pipes); calls whose context is cancelled
 // (kind x, cx=) with the receiving connection's Cancel goroutine scheduled late (cfg ck=, verif hook site K1);
@@ -351,6 +355,7 @@ type ordH struct {
 	// resume scenario
 	curGet   *ordGet
 	stallTag int
+	cuts     int
 	resumeCh chan struct{}
 	resumed  bool
 	cutDone  bool
@@ -364,6 +369,12 @@ func (h *ordH) cutStream(i int) {
 	g := h.curGet
 	h.stallTag = i
 	h.cutDone = g != nil
+	if h.resumed {
+		// a further cut of the same case: the next resume is a new one
+		h.resumed = false
+		h.resumeCh = make(chan struct{})
+	}
+	h.cuts++
 	h.mu.Unlock()
 	if g != nil {
 		g.body.closeR()
@@ -385,8 +396,8 @@ func (h *ordH) holdReplay() {
 	}
 	tag := -1
 	for i, m := range h.c.msgs {
-		if m.rsm {
-			tag = i
+		if m.rsm && i > h.stallTag && tag < 0 {
+			tag = i // the message the script sends the instant THIS replay begins
 		}
 	}
 	h.mu.Unlock()
@@ -408,8 +419,11 @@ func (h *ordH) holdReplay() {
 
 // awaitResume parks until the resumed GET begins to write the backlog (or 10 virtual seconds have passed).
 func (h *ordH) awaitResume() {
+	h.mu.Lock()
+	ch := h.resumeCh
+	h.mu.Unlock()
 	select {
-	case <-h.resumeCh:
+	case <-ch:
 	case <-time.After(10 * time.Second):
 	}
 }
@@ -731,7 +745,68 @@ func (h *ordH) rawJSON(i int) string {
 	return fmt.Sprintf(`{"jsonrpc":"2.0","id":%d,"method":%q,"params":%s}`, ordRawID(i), ordRawMethod[m.meth], params)
 }
 
+// ordPipePeer is the raw peer's end of a pair of pipes (transport rp): it writes newline-delimited JSON — a single
+// message or a JSON-RPC batch per line — and reads the server's responses (single or batched) on a goroutine of its own.
+type ordPipePeer struct {
+	w    io.WriteCloser
+	mu   sync.Mutex
+	got  map[int]bool
+	wait map[int]chan struct{}
+}
+
+func newOrdPipePeer(r io.Reader, w io.WriteCloser) *ordPipePeer {
+	p := &ordPipePeer{w: w, got: map[int]bool{}, wait: map[int]chan struct{}{}}
+	go func() {
+		dec := json.NewDecoder(r)
+		for {
+			var raw json.RawMessage
+			if err := dec.Decode(&raw); err != nil {
+				return
+			}
+			var many []json.RawMessage
+			if json.Unmarshal(raw, &many) != nil {
+				many = []json.RawMessage{raw}
+			}
+			for _, one := range many {
+				var m struct {
+					ID     *int   `json:"id"`
+					Method string `json:"method"`
+				}
+				if json.Unmarshal(one, &m) == nil && m.ID != nil && m.Method == "" {
+					p.mu.Lock()
+					p.got[*m.ID] = true
+					if ch, ok := p.wait[*m.ID]; ok {
+						close(ch)
+						delete(p.wait, *m.ID)
+					}
+					p.mu.Unlock()
+				}
+			}
+		}
+	}()
+	return p
+}
+
+// answered parks until the response with that id has arrived (or 10 virtual minutes have passed).
+func (p *ordPipePeer) answered(id int) bool {
+	p.mu.Lock()
+	if p.got[id] {
+		p.mu.Unlock()
+		return true
+	}
+	ch := make(chan struct{})
+	p.wait[id] = ch
+	p.mu.Unlock()
+	select {
+	case <-ch:
+		return true
+	case <-time.After(10 * time.Minute):
+		return false
+	}
+}
+
 type ordRaw struct {
+	pipe    *ordPipePeer
 	h       *ordH
 	hc      *http.Client
 	url     string
@@ -753,6 +828,25 @@ func (r *ordRaw) post(ids []int, batch bool) {
 	body := parts[0]
 	if batch {
 		body = "[" + strings.Join(parts, ",") + "]"
+	}
+	if r.pipe != nil {
+		// one line on the pipe; the frame is accepted when the Write has returned, calls are over when answered
+		for _, i := range ids {
+			r.h.log("snd", i)
+		}
+		_, err := r.pipe.w.Write([]byte(body + "\n"))
+		for _, i := range ids {
+			good := err == nil
+			if good && r.h.c.msgs[i].kind != 'n' {
+				good = r.pipe.answered(ordRawID(i))
+			}
+			if good {
+				r.h.log("ret", i)
+			} else {
+				r.h.log("err", i)
+			}
+		}
+		return
 	}
 	req, err := http.NewRequest(http.MethodPost, r.url, strings.NewReader(body))
 	ok := err == nil
@@ -942,6 +1036,17 @@ func ordRunCase(t *testing.T, out *verifOut, id string, c *ordCase) {
 			}
 			ss = s
 			raw = &ordRaw{h: h, hc: &http.Client{Transport: &ordRT{h: tp}}, url: url}
+		case "rp":
+			// the raw peer speaks newline-delimited JSON over a pair of pipes to a session connected over an IOTransport
+			r1, w1 := io.Pipe()
+			r2, w2 := io.Pipe()
+			s, err := server.Connect(context.Background(), &IOTransport{Reader: r1, Writer: w2}, nil)
+			if err != nil {
+				status = "connect-fail"
+			}
+			ss = s
+			raw = &ordRaw{h: h, pipe: newOrdPipePeer(r2, w1)}
+			cleanup = append(cleanup, func() { w1.Close(); r2.Close() })
 		case "rh", "rs", "rn":
 			// rs: a stateless handler; rn: a stateful handler of a server that hands out no session ids (sopts above):
 			// every POST of the raw peer — a whole JSON-RPC batch included — is served by one temporary session
@@ -1220,7 +1325,7 @@ func ordGenRaw(rng *rand.Rand, tr string, maxLen int) *ordCase {
 	for u := 1; u <= units; u++ {
 		if batchOK && rng.Intn(5) < 3 {
 			n := 1 + rng.Intn(16)
-			withCalls := rng.Intn(4) == 0
+			withCalls := rng.Intn(2) == 0 // every second body mixes calls and notifications
 			start := len(c.msgs)
 			for k := 0; k < n; k++ {
 				m := note()
@@ -1336,7 +1441,8 @@ func ordGen(rng *rand.Rand, tr string, maxLen int) *ordCase {
 		}
 		c.msgs = append(c.msgs, m)
 	}
-	if c.dir == "s2c" && (tr == "she" || tr == "shje") && rng.Intn(2) == 0 {
+	if (tr == "she" || tr == "shje") && !isNew && (c.dir == "s2c" || rng.Intn(3) == 0) && rng.Intn(2) == 0 {
+		c.dir = "s2c"
 		// resume scenario (event store): some notifications arrive; the client's hanging GET is cut; the server goroutine
 		// sends 1-4 notifications while the stream is detached (stored only); the client resumes with Last-Event-ID over a
 		// slow connection (the first replayed frame takes `stall` ms) and the same goroutine sends its next message the
@@ -1352,19 +1458,37 @@ func ordGen(rng *rand.Rand, tr string, maxLen int) *ordCase {
 		first := s2cNote()
 		first.cut = true
 		c.msgs = append(c.msgs, first)
-		for k := rng.Intn(4); k > 0; k-- {
-			c.msgs = append(c.msgs, s2cNote())
+		s2cCall := func(kinds string) ordMsg {
+			return ordMsg{dir: "s2c", kind: kinds[rng.Intn(len(kinds))], meth: []string{"lroots", "sample", "elicit", "ping", "samplet"}[rng.Intn(5)], d: dur()}
 		}
-		next := s2cNote()
-		if rng.Intn(10) < 3 {
-			next = ordMsg{dir: "s2c", kind: []byte{'c', 'g'}[rng.Intn(2)], meth: []string{"lroots", "sample", "elicit", "ping", "samplet"}[rng.Intn(5)], d: dur()}
+		round := func() {
+			for k := rng.Intn(4); k > 0; k-- {
+				if rng.Intn(5) == 0 {
+					// a call issued while the stream is detached: stored, replayed after the resume, answered by a POST
+					c.msgs = append(c.msgs, s2cCall("r"))
+				} else {
+					c.msgs = append(c.msgs, s2cNote())
+				}
+			}
+			next := s2cNote()
+			if rng.Intn(10) < 3 {
+				next = s2cCall("cg")
+			}
+			next.rsm = true
+			c.msgs = append(c.msgs, next)
+			for k := rng.Intn(3); k > 0; k-- {
+				m := s2cNote()
+				m.gap = gap()
+				c.msgs = append(c.msgs, m)
+			}
 		}
-		next.rsm = true
-		c.msgs = append(c.msgs, next)
-		for k := rng.Intn(3); k > 0; k-- {
-			m := s2cNote()
-			m.gap = gap()
-			c.msgs = append(c.msgs, m)
+		round()
+		if rng.Intn(3) == 0 {
+			// the stream breaks a second time: order must hold across every reconnect
+			again := s2cNote()
+			again.cut = true
+			c.msgs = append(c.msgs, again)
+			round()
 		}
 	}
 	if c.stall == 0 && rng.Intn(2) == 0 {
@@ -1399,7 +1523,7 @@ func ordBodyCase(tr string, n, mask, salt int) *ordCase {
 	return c
 }
 
-var ordTransports = []string{"mem", "io", "sse", "sh", "shj", "she", "shje", "sl", "slj", "rw", "rwj", "rh", "run", "sn", "snj", "rs", "rn"}
+var ordTransports = []string{"mem", "io", "sse", "sh", "shj", "she", "shje", "sl", "slj", "rw", "rwj", "rh", "run", "sn", "snj", "rs", "rn", "rp"}
 
 func ordParse(lines []string) (*ordCase, bool) {
 	c := &ordCase{}
@@ -1505,7 +1629,7 @@ func TestVerifOrder(t *testing.T) {
 	// exhaustive: a raw streamable peer POSTs ONE batch of every composition of calls and notifications up to four
 	// members (pre-2025-06-18 batching; Mcp-Protocol-Version absent or present on rh), then a notification and a call
 	ci := 0
-	for _, tr := range []string{"rw", "rwj", "rh", "rs", "rn"} {
+	for _, tr := range []string{"rw", "rwj", "rh", "rs", "rn", "rp"} {
 		for n := 1; n <= 4; n++ {
 			for mask := 0; mask < 1<<n; mask++ {
 				ordRunCase(t, out, fmt.Sprintf("x%d", ci), ordBodyCase(tr, n, mask, ci))
@@ -1514,7 +1638,7 @@ func TestVerifOrder(t *testing.T) {
 		}
 	}
 	rng := verifRng(31)
-	n := verifN(4000, 20000)
+	n := verifN(2400, 20000) // quick: ≈140 single-pair cases per transport + 800 fan-out cases, besides the corpus and the exhaustive block
 	maxLen := 8
 	if verifThorough() {
 		maxLen = 14
